@@ -1266,7 +1266,19 @@ def _new_timedelta(it, lv, ca, node):
 # ------------------------------------------------------------------------------------------------
 # tasks, timers, callbacks (T-FUT, T-TIMER): registrations are recorded, the loop runs them later
 # ------------------------------------------------------------------------------------------------
-@spec("EventLoop.create_task", "TaskGroup.create_task", "asyncio.create_task")
+@spec("TaskGroup.create_task")
+def _tg_create_task(it, lv, ca, node):
+    """T-TG: a group that is not active (not entered, finished, or shutting down after a failure or
+    cancellation) refuses new tasks with RuntimeError; otherwise the task becomes a member."""
+    used("T-TG")
+    st = it.st
+    if st.fork(f"TaskGroup.create_task@{it.pos(node)}", [("accepted", True), ("refused-group-not-active", True)]) == 1:
+        st.ghost["$tg_refused"] = st.ghost.get("$tg_refused", 0) + 1
+        raise PyRaise(it.new_exc("RuntimeError"), "TaskGroup is not active")
+    return _create_task(it, lv, ca, node)
+
+
+@spec("EventLoop.create_task", "asyncio.create_task")
 def _create_task(it, lv, ca, node):
     used("T-FUT")
     st = it.st
